@@ -1,9 +1,613 @@
-//! STUB component for hest -- to be written
+//! component 21: HEST + the stand-alone GenericErrorStatus / GenericErrorData.
+//! Case vocabulary documented in coq/theories/Spec/HestS.v (GAS arguments: coq/theories/Spec/GasS.v).
 use crate::sx::*;
+use crate::tcommon::*;
 use crate::Emit;
+use acpi_tables::gas::{AccessSize, AddressSpace, GAS};
+use acpi_tables::hest::*;
+use acpi_tables::Aml;
 
-pub fn run(_case: &Sx, _out: &mut Vec<Ev>) {
-    panic!("harness: component hest not implemented")
+pub fn address_space(n: u64) -> AddressSpace {
+    match n {
+        0 => AddressSpace::SystemMemory,
+        1 => AddressSpace::SystemIo,
+        2 => AddressSpace::PciConfigSpace,
+        3 => AddressSpace::EmbeddedController,
+        4 => AddressSpace::Smbus,
+        5 => AddressSpace::SystemCmos,
+        6 => AddressSpace::PciBarTarget,
+        7 => AddressSpace::Ipmi,
+        8 => AddressSpace::GeneralPursposeIo,
+        9 => AddressSpace::GenericSerialBus,
+        0xa => AddressSpace::PlatformCommunicationsChannel,
+        0xb => AddressSpace::PlatformRuntimeMechanism,
+        0x7f => AddressSpace::FunctionalFixedHardware,
+        _ => panic!("harness: bad address space"),
+    }
 }
 
-pub fn gen(_tier: &str, _rng: &mut Rng, _emit: &mut Emit) {}
+pub fn access_size(n: u64) -> AccessSize {
+    match n {
+        0 => AccessSize::Undefined,
+        1 => AccessSize::ByteAccess,
+        2 => AccessSize::WordAccess,
+        3 => AccessSize::DwordAccess,
+        4 => AccessSize::QwordAccess,
+        _ => panic!("harness: bad access size"),
+    }
+}
+
+/// a GAS-valued argument: (0 space width offset access addr) | (1 width access dev fn reg) | (2)
+pub fn gas(s: &Sx) -> GAS {
+    let g = s.list();
+    let n = |i: usize| g[i].num();
+    match n(0) {
+        0 => GAS::new(address_space(n(1)), n(2) as u8, n(3) as u8, access_size(n(4)), n(5)),
+        1 => GAS::new_pci_config(n(1) as u8, access_size(n(2)), n(3) as u8, n(4) as u8, n(5) as u16),
+        2 => GAS::default(),
+        _ => panic!("harness: bad gas"),
+    }
+}
+
+pub const SPACES: [u64; 13] = [0, 1, 2, 3, 4, 5, 6, 7, 8, 9, 0xa, 0xb, 0x7f];
+
+pub fn rand_gas(rng: &mut Rng) -> Sx {
+    match rng.below(8) {
+        0 => l(vec![a(2)]),
+        1 | 2 => l(vec![a(1), a(rng.val(8)), a(rng.below(5)), a(rng.val(8)), a(rng.val(8)), a(rng.val(16))]),
+        _ => l(vec![a(0), a(*rng.pick(&SPACES)), a(rng.val(8)), a(rng.val(8)), a(rng.below(5)), a(rng.val(64))]),
+    }
+}
+
+fn notification_type(n: u64) -> NotificationType {
+    match n {
+        0 => NotificationType::Polled,
+        1 => NotificationType::ExternalIrq,
+        2 => NotificationType::LocalIrq,
+        3 => NotificationType::Sci,
+        4 => NotificationType::Nmi,
+        5 => NotificationType::Cmci,
+        6 => NotificationType::Mce,
+        7 => NotificationType::GpioSignal,
+        8 => NotificationType::Armv8Sea,
+        9 => NotificationType::Armv8Sei,
+        10 => NotificationType::ExternalGsiv,
+        11 => NotificationType::SoftwareException,
+        12 => NotificationType::RiscvSupervisorSoftwareEvent,
+        13 => NotificationType::RiscvLowPriorityRasInterrupt,
+        14 => NotificationType::RiscvHighPriorityRasInterrupt,
+        15 => NotificationType::RiscvHardwareErrorException,
+        _ => panic!("harness: bad notification type"),
+    }
+}
+
+fn severity(n: u64) -> ErrorSeverity {
+    match n {
+        0 => ErrorSeverity::Recoverable,
+        1 => ErrorSeverity::Fatal,
+        2 => ErrorSeverity::Correctable,
+        3 => ErrorSeverity::None,
+        _ => panic!("harness: bad severity"),
+    }
+}
+
+fn enabled(n: u64) -> EnabledStatus {
+    match n {
+        0 => EnabledStatus::Disabled,
+        1 => EnabledStatus::Enabled,
+        _ => panic!("harness: bad enabled status"),
+    }
+}
+
+fn firmware_first(n: u64) -> FirmwareFirst {
+    match n {
+        0 => FirmwareFirst::Disabled,
+        1 => FirmwareFirst::Enabled,
+        _ => panic!("harness: bad firmware first"),
+    }
+}
+
+fn notification(ty: u64, setters: &[Sx]) -> NotificationStructure {
+    let mut n = NotificationStructure::new(notification_type(ty));
+    for s in setters {
+        let s = s.list();
+        let v = s[1].num();
+        n = match s[0].num() {
+            1 => n.conf_write_en(v as u16),
+            2 => n.poll_interval_ms(v as u32),
+            3 => n.vector(v as u32),
+            4 => n.polling_threshold_value(v as u32),
+            5 => n.polling_threshold_window_ms(v as u32),
+            6 => n.error_threshold_value(v as u32),
+            7 => n.error_threshold_window_ms(v as u32),
+            _ => panic!("harness: bad notification setter"),
+        };
+    }
+    n
+}
+
+/// Some(device) for (1 ff bus dev fn), None for (0)
+fn aer_ctor(c: &Sx) -> Option<(FirmwareFirst, PciDevice)> {
+    let c = c.list();
+    match c[0].num() {
+        0 => None,
+        1 => Some((firmware_first(c[1].num()), PciDevice::new(c[2].num() as u8, c[3].num() as u8, c[4].num() as u8))),
+        _ => panic!("harness: bad aer ctor"),
+    }
+}
+
+fn to_vec(t: &dyn Aml) -> Vec<u8> {
+    let mut v = Vec::new();
+    t.to_aml_bytes(&mut v);
+    v
+}
+
+pub fn run(case: &Sx, out: &mut Vec<Ev>) {
+    let c = case.list();
+    let ctor = c[0].list();
+    let (oem, tbl, rev) = hdr_args(ctor);
+    let mut t = HEST::new(oem, tbl, rev);
+    // the serialisation of the stand-alone structure built by the last operation, if it was (20 ..) / (21 ..)
+    let mut alone: Option<Vec<u8>> = None;
+    for op in &c[1..] {
+        if let Sx::A(_) = op {
+            match &alone {
+                Some(b) => out.push(Ev::Bytes(b.clone())),
+                None => out.push(image(&t)),
+            }
+            continue;
+        }
+        let o = op.list();
+        let n = |i: usize| o[i].num();
+        match n(0) {
+            1 => {
+                let mut s = match aer_ctor(&o[1]) {
+                    None => PcieAerRootPort::new_global(),
+                    Some((ff, d)) => PcieAerRootPort::new_root_port(ff, d),
+                };
+                for st in o[2].list() {
+                    let st = st.list();
+                    let v = st[1].num();
+                    s = match st[0].num() {
+                        1 => s.num_records(v as u32),
+                        2 => s.max_sections(v as u32),
+                        3 => s.device_control(v as u16),
+                        4 => s.uncorrectable_error_mask(v as u32),
+                        5 => s.uncorrectable_error_severity(v as u32),
+                        6 => s.correctable_error_mask(v as u32),
+                        7 => s.aer_cap_ctrl(v as u32),
+                        8 => s.root_error_command(v as u32),
+                        _ => panic!("harness: bad root port setter"),
+                    };
+                }
+                t.add_structure(s);
+                alone = None;
+            }
+            2 => {
+                let mut s = match aer_ctor(&o[1]) {
+                    None => PcieAerDevice::new_global(),
+                    Some((ff, d)) => PcieAerDevice::new_root_port(ff, d),
+                };
+                for st in o[2].list() {
+                    let st = st.list();
+                    let v = st[1].num();
+                    s = match st[0].num() {
+                        1 => s.num_records(v as u32),
+                        2 => s.max_sections(v as u32),
+                        3 => s.device_control(v as u16),
+                        4 => s.uncorrectable_error_mask(v as u32),
+                        5 => s.uncorrectable_error_severity(v as u32),
+                        6 => s.correctable_error_mask(v as u32),
+                        7 => s.aer_cap_ctrl(v as u32),
+                        _ => panic!("harness: bad aer device setter"),
+                    };
+                }
+                t.add_structure(s);
+                alone = None;
+            }
+            3 => {
+                let mut s = match aer_ctor(&o[1]) {
+                    None => PcieAerBridge::new_global(),
+                    Some((ff, d)) => PcieAerBridge::new_bridge(ff, d),
+                };
+                for st in o[2].list() {
+                    let st = st.list();
+                    let v = st[1].num();
+                    s = match st[0].num() {
+                        1 => s.num_records(v as u32),
+                        2 => s.max_sections(v as u32),
+                        3 => s.device_control(v as u16),
+                        4 => s.uncorrectable_error_mask(v as u32),
+                        5 => s.uncorrectable_error_severity(v as u32),
+                        6 => s.correctable_error_mask(v as u32),
+                        7 => s.aer_cap_ctrl(v as u32),
+                        8 => s.secondary_uncorrectable_error_mask(v as u32),
+                        9 => s.secondary_uncorrectable_error_severity(v as u32),
+                        10 => s.secondary_aer_cap_ctrl(v as u32),
+                        _ => panic!("harness: bad bridge setter"),
+                    };
+                }
+                t.add_structure(s);
+                alone = None;
+            }
+            4 => {
+                let mut s = GenericHardwareSource::new(n(1) as u16, enabled(n(2)));
+                for st in o[3].list() {
+                    let st = st.list();
+                    s = match st[0].num() {
+                        1 => s.num_records(st[1].num() as u32),
+                        2 => s.max_sections(st[1].num() as u32),
+                        3 => s.max_raw_length(st[1].num() as u32),
+                        4 => s.error_status_address(gas(&st[1])),
+                        5 => s.notification(notification(st[1].num(), st[2].list())),
+                        6 => s.error_status_block_len(st[1].num() as u32),
+                        _ => panic!("harness: bad ghes setter"),
+                    };
+                }
+                t.add_structure(s);
+                alone = None;
+            }
+            5 => {
+                let mut s = GenericHardwareSourceV2::new(n(1) as u16, enabled(n(2)));
+                for st in o[3].list() {
+                    let st = st.list();
+                    s = match st[0].num() {
+                        1 => s.num_records(st[1].num() as u32),
+                        2 => s.max_sections(st[1].num() as u32),
+                        3 => s.max_raw_length(st[1].num() as u32),
+                        4 => s.error_status_address(gas(&st[1])),
+                        5 => s.notification(notification(st[1].num(), st[2].list())),
+                        6 => s.error_status_block_len(st[1].num() as u32),
+                        7 => s.read_ack_register(gas(&st[1])),
+                        8 => s.read_ack_preserve(st[1].num()),
+                        9 => s.read_ack_write(st[1].num()),
+                        _ => panic!("harness: bad ghes v2 setter"),
+                    };
+                }
+                t.add_structure(s);
+                alone = None;
+            }
+            20 => {
+                let cnt = o[1].list();
+                let s = GenericErrorStatus::new(cnt[0].num() as u32, cnt[1].num() as u32, severity(n(2)));
+                alone = Some(to_vec(&s));
+            }
+            21 => {
+                let mut d = GenericErrorData::new(severity(n(1)));
+                for st in o[2].list() {
+                    let st = st.list();
+                    match st[0].num() {
+                        1 => d.section_type = st[1].num() as u16,
+                        2 => d.severity = severity(st[1].num()),
+                        3 => d.revision = st[1].num() as u16,
+                        4 => d.validation = st[1].num() as u8,
+                        5 => d.flags = st[1].num() as u8,
+                        6 => d.error_data_length = st[1].num() as u32,
+                        7 => d.fru_id = st[1].arr::<16>(),
+                        8 => d.fru_text = st[1].arr::<20>(),
+                        9 => d.timestamp = st[1].arr::<8>(),
+                        _ => panic!("harness: bad generic error data assignment"),
+                    }
+                }
+                alone = Some(to_vec(&d));
+            }
+            _ => panic!("harness: bad hest op"),
+        }
+        out.push(Ev::Num(0));
+    }
+}
+
+// ---------------------------------------------------------------------------------------------- generators
+
+const AER_BITS: [u32; 10] = [32, 32, 16, 32, 32, 32, 32, 32, 32, 32];
+
+fn aer_nsetters(kind: u64) -> u64 {
+    match kind {
+        1 => 8,
+        2 => 7,
+        _ => 10,
+    }
+}
+
+fn ghes_nsetters(kind: u64) -> u64 {
+    if kind == 4 {
+        6
+    } else {
+        9
+    }
+}
+
+fn rand_aer_ctor(rng: &mut Rng) -> Sx {
+    if rng.chance(1, 3) {
+        l(vec![a(0)])
+    } else {
+        l(vec![a(1), a(rng.below(2)), a(rng.val(8)), a(rng.val(5)), a(rng.val(3))])
+    }
+}
+
+fn rand_notification(rng: &mut Rng) -> Vec<Sx> {
+    let k = rng.below(9);
+    let st = (0..k)
+        .map(|_| {
+            let id = rng.range(1, 7);
+            l(vec![a(id), a(rng.val(if id == 1 { 16 } else { 32 }))])
+        })
+        .collect();
+    vec![a(5), a(rng.below(16)), l(st)]
+}
+
+/// one setter of the given id for the source kind, with a random argument
+fn setter(rng: &mut Rng, kind: u64, id: u64) -> Sx {
+    match kind {
+        1 | 2 | 3 => l(vec![a(id), a(rng.val(AER_BITS[(id - 1) as usize]))]),
+        _ => match id {
+            4 | 7 => l(vec![a(id), rand_gas(rng)]),
+            5 => l(rand_notification(rng)),
+            8 | 9 => l(vec![a(id), a(rng.val(64))]),
+            _ => l(vec![a(id), a(rng.val(32))]),
+        },
+    }
+}
+
+fn source(rng: &mut Rng, kind: u64, setters: Vec<Sx>) -> Sx {
+    match kind {
+        1 | 2 | 3 => l(vec![a(kind), rand_aer_ctor(rng), l(setters)]),
+        _ => l(vec![a(kind), a(rng.val(16)), a(rng.below(2)), l(setters)]),
+    }
+}
+
+pub fn rand_op(rng: &mut Rng, kind: u64) -> Sx {
+    let ns = if kind <= 3 { aer_nsetters(kind) } else { ghes_nsetters(kind) };
+    let k = rng.below(ns + 4);
+    let st = (0..k)
+        .map(|_| {
+            let id = rng.range(1, ns);
+            setter(rng, kind, id)
+        })
+        .collect();
+    source(rng, kind, st)
+}
+
+fn smallest(kind: u64) -> Sx {
+    match kind {
+        1 | 2 | 3 => l(vec![a(kind), l(vec![a(0)]), l(vec![])]),
+        _ => l(vec![a(kind), a(0), a(0), l(vec![])]),
+    }
+}
+
+fn rand_ctor(rng: &mut Rng) -> Sx {
+    l(rand_hdr(rng))
+}
+
+fn rand_status(rng: &mut Rng) -> Sx {
+    let cnt = |rng: &mut Rng| match rng.below(6) {
+        0 => 0,
+        1 => 1,
+        2 => 2,
+        3 => 3,
+        4 => 0xffff_ffff,
+        _ => rng.val(32),
+    };
+    let cc = cnt(rng);
+    let uc = cnt(rng);
+    l(vec![a(20), l(vec![a(cc), a(uc)]), a(rng.below(4))])
+}
+
+fn ged_assign(rng: &mut Rng, id: u64) -> Sx {
+    match id {
+        1 | 3 => l(vec![a(id), a(rng.val(16))]),
+        2 => l(vec![a(2), a(rng.below(4))]),
+        4 | 5 => l(vec![a(id), a(rng.val(8))]),
+        6 => l(vec![a(6), a(rng.val(32))]),
+        7 => l(vec![a(7), blist(&rng.bytes(16))]),
+        8 => l(vec![a(8), blist(&rng.bytes(20))]),
+        _ => l(vec![a(9), blist(&rng.bytes(8))]),
+    }
+}
+
+fn rand_data(rng: &mut Rng) -> Sx {
+    let k = rng.below(12);
+    let st = (0..k)
+        .map(|_| {
+            let id = rng.range(1, 9);
+            ged_assign(rng, id)
+        })
+        .collect();
+    l(vec![a(21), a(rng.below(4)), l(st)])
+}
+
+/// the ids of `mask` in ascending order, descending order, or shuffled with one repetition
+fn ordered(rng: &mut Rng, n: u64, mask: u64, order: u64) -> Vec<u64> {
+    let mut ids: Vec<u64> = (1..=n).filter(|i| mask >> (i - 1) & 1 == 1).collect();
+    match order {
+        0 => {}
+        1 => ids.reverse(),
+        _ => {
+            for i in (1..ids.len()).rev() {
+                let j = rng.below(i as u64 + 1) as usize;
+                ids.swap(i, j);
+            }
+            if !ids.is_empty() {
+                let x = *rng.pick(&ids);
+                let pos = rng.below(ids.len() as u64 + 1) as usize;
+                ids.insert(pos, x);
+            }
+        }
+    }
+    ids
+}
+
+pub fn gen(tier: &str, rng: &mut Rng, emit: &mut Emit) {
+    let kinds: Vec<u64> = (1..=5).collect();
+    // empty history
+    for _ in 0..4 {
+        let c = rand_ctor(rng);
+        emit.case(21, history(rng, c, vec![]));
+    }
+    // each source kind alone: bare, random setters, every subset of its setters in three orders
+    for k in &kinds {
+        let c = rand_ctor(rng);
+        emit.case(21, history(rng, c, vec![smallest(*k)]));
+        for _ in 0..8 {
+            let c = rand_ctor(rng);
+            let op = rand_op(rng, *k);
+            emit.case(21, history(rng, c, vec![op]));
+        }
+        let ns = if *k <= 3 { aer_nsetters(*k) } else { ghes_nsetters(*k) };
+        for mask in 0..(1u64 << ns) {
+            for order in 0..3 {
+                if order > 0 && mask.count_ones() < 2 {
+                    continue;
+                }
+                let st = ordered(rng, ns, mask, order).into_iter().map(|id| setter(rng, *k, id)).collect();
+                let c = rand_ctor(rng);
+                let op = source(rng, *k, st);
+                emit.case(21, history(rng, c, vec![op]));
+            }
+        }
+    }
+    // PCI device boundaries of the AER constructors (device < 32, function < 8 asserted by PciDevice::new)
+    for k in 1..=3u64 {
+        for (dev, func) in [(0u64, 0u64), (31, 7), (32, 0), (0, 8), (31, 8), (32, 7), (255, 255), (31, 0), (0, 7)] {
+            for ff in 0..2 {
+                let c = rand_ctor(rng);
+                let op = l(vec![a(k), l(vec![a(1), a(ff), a(rng.val(8)), a(dev), a(func)]), l(vec![])]);
+                let before = rand_op(rng, 2);
+                emit.case(21, history(rng, c, vec![before, op]));
+            }
+        }
+    }
+    // all 16 notification types, every subset of the notification setters
+    for k in [4u64, 5] {
+        for nty in 0..16u64 {
+            for mask in (0..128u64).filter(|m| nty == 0 || m % 5 == nty % 5 || *m == 127) {
+                let order = rng.below(3);
+                let nst: Vec<Sx> = ordered(rng, 7, mask, order)
+                    .into_iter()
+                    .map(|id| l(vec![a(id), a(rng.val(if id == 1 { 16 } else { 32 }))]))
+                    .collect();
+                let mut st = vec![l(vec![a(5), a(nty), l(nst)])];
+                if rng.chance(1, 4) {
+                    // an earlier notification is replaced as a whole
+                    st.insert(0, l(rand_notification(rng)));
+                }
+                let c = rand_ctor(rng);
+                let op = source(rng, k, st);
+                emit.case(21, history(rng, c, vec![op]));
+            }
+        }
+        // every address space x access size in both GAS-valued setters, PCI-config form, default form
+        for sp in SPACES {
+            for acc in 0..5u64 {
+                let g = l(vec![a(0), a(sp), a(rng.val(8)), a(rng.val(8)), a(acc), a(rng.val(64))]);
+                let id = if k == 5 && rng.chance(1, 2) { 7 } else { 4 };
+                let c = rand_ctor(rng);
+                let op = source(rng, k, vec![l(vec![a(id), g])]);
+                emit.case(21, history(rng, c, vec![op]));
+            }
+        }
+        for _ in 0..40 {
+            let g = l(vec![a(1), a(rng.val(8)), a(rng.below(5)), a(rng.val(8)), a(rng.val(8)), a(rng.val(16))]);
+            let id = if k == 5 && rng.chance(1, 2) { 7 } else { 4 };
+            let c = rand_ctor(rng);
+            let esbl = rng.val(32);
+            let op = source(rng, k, vec![l(vec![a(id), g]), l(vec![a(6), a(esbl)])]);
+            emit.case(21, history(rng, c, vec![op]));
+        }
+        let c = rand_ctor(rng);
+        let g = rand_gas(rng);
+        let op = source(rng, k, vec![l(vec![a(4), g]), l(vec![a(4), l(vec![a(2)])])]);
+        emit.case(21, history(rng, c, vec![op]));
+    }
+    // all ordered pairs of source kinds
+    for k1 in &kinds {
+        for k2 in &kinds {
+            let c = rand_ctor(rng);
+            let ops = vec![rand_op(rng, *k1), rand_op(rng, *k2)];
+            emit.case(21, history(rng, c, ops));
+        }
+    }
+    // homogeneous runs crossing 255 -> 256 sources; a run crossing 65535 -> 65536 bytes
+    for k in &kinds {
+        let c = rand_ctor(rng);
+        let ops = (0..300).map(|i| if i % 7 == 0 { rand_op(rng, *k) } else { smallest(*k) }).collect();
+        emit.case(21, history(rng, c, ops));
+    }
+    {
+        let c = rand_ctor(rng);
+        let ops = (0..800).map(|_| rand_op(rng, 5)).collect(); // 800 * 92 bytes > 65536
+        emit.case(21, history(rng, c, ops));
+    }
+    if tier == "thorough" {
+        let c = rand_ctor(rng);
+        let ops = (0..65_540).map(|_| smallest(2)).collect();
+        emit.case(21, history(rng, c, ops));
+    }
+    // random mixed histories
+    let n = if tier == "thorough" { 3000 } else { 200 };
+    for _ in 0..n {
+        let c = rand_ctor(rng);
+        let len = match rng.below(3) {
+            0 => rng.range(1, 6),
+            1 => rng.range(1, 24),
+            _ => rng.range(25, 120),
+        };
+        let ops = (0..len)
+            .map(|_| {
+                let k = *rng.pick(&kinds);
+                rand_op(rng, k)
+            })
+            .collect();
+        emit.case(21, history(rng, c, ops));
+    }
+    // the stand-alone structures are not tables (no header, no checksum, no length field): their observations are
+    // judged by the reference-encoding property only
+    if emit.prop == 4 {
+        for cc in [0u64, 1, 2, 3, 0xffff_ffff] {
+            for uc in [0u64, 1, 2, 3, 0xffff_ffff] {
+                for sev in 0..4u64 {
+                    let c = rand_ctor(rng);
+                    emit.case(21, history(rng, c, vec![l(vec![a(20), l(vec![a(cc), a(uc)]), a(sev)])]));
+                }
+            }
+        }
+        for _ in 0..40 {
+            let c = rand_ctor(rng);
+            let op = rand_status(rng);
+            emit.case(21, history(rng, c, vec![op]));
+        }
+        // generic error data: new(severity) alone, every subset of the 9 pub-field assignments, random programs
+        for sev in 0..4u64 {
+            let c = rand_ctor(rng);
+            emit.case(21, history(rng, c, vec![l(vec![a(21), a(sev), l(vec![])])]));
+        }
+        for mask in 0..512u64 {
+            let order = rng.below(3);
+            let st = ordered(rng, 9, mask, order).into_iter().map(|id| ged_assign(rng, id)).collect();
+            let c = rand_ctor(rng);
+            let sev = rng.below(4);
+            emit.case(21, history(rng, c, vec![l(vec![a(21), a(sev), l(st)])]));
+        }
+        for _ in 0..40 {
+            let c = rand_ctor(rng);
+            let op = rand_data(rng);
+            emit.case(21, history(rng, c, vec![op]));
+        }
+        // interleaved with table operations: the stand-alone structures leave the table alone
+        for _ in 0..60 {
+            let c = rand_ctor(rng);
+            let len = rng.range(2, 12);
+            let ops = (0..len)
+                .map(|_| match rng.below(4) {
+                    0 => rand_status(rng),
+                    1 => rand_data(rng),
+                    _ => {
+                        let k = *rng.pick(&kinds);
+                        rand_op(rng, k)
+                    }
+                })
+                .collect();
+            emit.case(21, history(rng, c, ops));
+        }
+    }
+}
